@@ -101,15 +101,15 @@ Theorem C09_sqrtmp_5mod8 : forall a p b, prime p -> p mod 8 = 5 -> a <> 0 ->
 Proof. exact sqrtmp_5mod8. Qed.
 Print Assumptions C09_sqrtmp_5mod8.
 
-(* every odd prime (all classes modulo 8, Tonelli-Shanks loops included), every residue *)
-Theorem C09_sqrtmp_ok : forall a p b, prime p -> p <> 2 -> a <> 0 ->
+(* every prime (2 through the guard of 03c88a4; odd primes: all classes modulo 8, Tonelli-Shanks loops included), every residue *)
+Theorem C09_sqrtmp_ok : forall a p b, prime p -> a <> 0 ->
   powm a ((p - 1) / 2) p = 1 -> powm b ((p - 1) / 2) p = p - 1 ->
   exists r, sqrtmp_with a p b = SqOk r /\ 0 <= r < p /\ (r * r) mod p = a mod p.
 Proof. exact sqrtmp_ok. Qed.
 Print Assumptions C09_sqrtmp_ok.
 
-(* every product of two odd primes (Blum or not), any Bezout pair: four roots and the chosen one square back *)
-Theorem C09_sqrtmn_two_primes_ok : forall a p q u v bp bq, prime p -> prime q -> p <> 2 -> q <> 2 -> a <> 0 ->
+(* every product of two primes (Blum or not), any Bezout pair: four roots and the chosen one square back *)
+Theorem C09_sqrtmn_two_primes_ok : forall a p q u v bp bq, prime p -> prime q -> a <> 0 ->
   u * p + v * q = 1 ->
   powm a ((p - 1) / 2) p = 1 -> powm bp ((p - 1) / 2) p = p - 1 ->
   powm a ((q - 1) / 2) q = 1 -> powm bq ((q - 1) / 2) q = q - 1 ->
@@ -140,10 +140,10 @@ Theorem C09_sqrtmn_fast_blum_ok : forall a p q u v, 0 < p -> 0 < q -> p mod 4 = 
 Proof. exact sqrtmn_fast_all_ok. Qed.
 Print Assumptions C09_sqrtmn_fast_blum_ok.
 
-(* the prime 2 is outside the routine's domain: the model of the loops never returns *)
-Theorem C09_sqrtmp_all_primes_refuted : forall b, sqrtmp_with 1 2 b = SqDiverge.
-Proof. exact sqrtmp_modulus_2_diverges. Qed.
-Print Assumptions C09_sqrtmp_all_primes_refuted.
+(* the prime 2: every argument (zero included) is answered by the guard and squares back *)
+Theorem C09_sqrtmp_modulus_2 : forall a b, exists r, sqrtmp_with a 2 b = SqOk r /\ 0 <= r < 2 /\ (r * r) mod 2 = a mod 2.
+Proof. exact sqrtmp_modulus_2. Qed.
+Print Assumptions C09_sqrtmp_modulus_2.
 
 (* interpolation: whenever the routine returns true (any modulus q > 1, any points, reduced or not), the
    returned polynomial has one coefficient per point and passes through every point *)
